@@ -46,6 +46,7 @@
 /* Private Variables */
 static uint8 *paletteBuf = NULL;
 static uint16 Refset     = 0;  /* Ref of image to get next */
+static uint16 Readrigref = 0;  /* Ref of the RIG read into Readrig (or skipped) last */
 static uint16 Lastref    = 0;  /* Last ref read/written */
 static uint16 Writeref   = 0;  /* ref of next image to put in this file */
 static int    foundRig   = -1; /* -1: don't know if HDF file has RIGs
@@ -1275,8 +1276,9 @@ DFR8Iriginfo(int32 file_id)
     HEclear();
     /* find next rig */
     if (foundRig) { /* either RIGs present or don't know */
+        /* continue after the RIG read last: its ref need not be the ref of its image */
         if (!Refset && Readrig.image.ref)
-            aid = Hstartread(file_id, DFTAG_RIG, Readrig.image.ref);
+            aid = Hstartread(file_id, DFTAG_RIG, Readrigref);
         do {
             if (Refset)
                 aid = Hstartread(file_id, DFTAG_RIG, Refset);
@@ -1309,10 +1311,12 @@ DFR8Iriginfo(int32 file_id)
                         HGOTO_ERROR(DFE_BADRIG, FAIL);
                     } /* end if */
                     Readrig.image.ref = ref;
+                    Readrigref        = ref;
                 } /* end if */
                 else {
-                    foundRig = 1;
-                    Refset   = 0;
+                    foundRig   = 1;
+                    Refset     = 0;
+                    Readrigref = ref;
                 } /* end else */
             }     /* end if */
         } while ((aid != FAIL) && (HEvalue(1) == DFE_BADCALL));
